@@ -51,6 +51,13 @@ def main():
         crate_dir = "scpi-contrib"
     crate = "scpi-contrib" if crate_dir == "scpi-contrib" else "scpi"
     features = "arrayvec" if ("arrayvec" in open(demo).read().lower() and crate == "scpi") else ""
+    # a demo that needs a cargo feature of the crate says so in its notes (`--features compact`)
+    m = re.search(r"--features[ =]([A-Za-z0-9_,/-]+)", notes)
+    if m and crate == "scpi":
+        extra = [f.split("/")[-1] for f in m.group(1).split(",") if f]
+        features = ",".join(sorted(set(([features] if features else []) + extra)))
+    if os.environ.get("SEEDED_DEMO_FEATURES"):
+        features = os.environ["SEEDED_DEMO_FEATURES"]
     meta = {"name": name, "property": prop, "demo_location": f"{crate_dir}/tests/demo.rs", "demo_features": features}
     # --- 1. confirm
     ensure_worktree()
